@@ -51,4 +51,22 @@ var plans = map[string]plan{
 		Rule: "outer case = generated subject package (14 element/result types with fmap over slices (two result types), fmap over strings, join of slices, join of strings); inner case = one call with a scripted, logging f on slices of length 0-6 (nil vs empty), slices of slices with nil/empty inner lists, strings over ASCII, 2-4 byte runes and invalid UTF-8; judged against map over the elements / []rune(s) and concatenation, call log in order, inputs unmodified; non-trivial = string whose byte length differs from its rune count, or slice of slices with an empty and a non-empty inner list, or fmap over >= 2 elements; distinct by input encoding",
 		Assumptions: []string{"vref encoder (self-tested)"},
 	},
+	"C15": {
+		Quick:    tierPlan{Shards: 8, Checks: 1, Shrink: "45s", Limit: 20 * time.Minute},
+		Thorough: tierPlan{Shards: 16, Checks: 8, Shrink: "3m", Limit: 3 * time.Hour},
+		Rule: "outer case = generated subject package: 14 non-variadic signatures with 2-5 parameters of mixed types (incl. error / interface{}), named / blank / unnamed / generator-hostile parameter names (f, g, err, param_0, v0 ...), 0-3 results, each wrapped by curry, flip, apply, uncurry, uncurry-of-curry and tuple; inner case = drawn arguments and scripted results through an instrumented f: exactly one call, every argument in its position (identity for pointers/slices/maps), results unchanged; non-trivial = signature with >= 3 parameters of >= 2 distinct types; distinct by (signature, operation, arguments)",
+		Assumptions: []string{"reflect.MakeFunc stubs observe exactly the calls made through the function value"},
+	},
+	"C16": {
+		Quick:    tierPlan{Shards: 8, Checks: 1, Shrink: "45s", Limit: 20 * time.Minute},
+		Thorough: tierPlan{Shards: 16, Checks: 8, Shrink: "3m", Limit: 3 * time.Hour},
+		Rule: "outer case = generated subject package with 16 error-propagating forms: compose chains of 2-4 stages with 0-3 intermediate/final results over basic, named basic, struct, array, pointer, slice, map and interface types; the error forms of fmap (0, 1, >=2 results) and join; traverse; toerror; inner case = drawn arguments, scripted stage results, a drawn failing stage / index (or none) with a distinct error value per stage; judged by the call log (left to right, at most once, none after the failure, exactly the previous results by identity), error identity, zero values on failure, pass-through on success; non-trivial = >= 3 stages or >= 2 results with the failure not at the first stage (and the analogous rule per form); distinct by (form, signature, arguments, failing position)",
+		Assumptions: []string{"reflect.MakeFunc stubs observe exactly the calls made"},
+	},
+	"C18": {
+		Quick:    tierPlan{Shards: 8, Checks: 1, Shrink: "45s", Limit: 20 * time.Minute},
+		Thorough: tierPlan{Shards: 16, Checks: 8, Shrink: "3m", Limit: 3 * time.Hour},
+		Rule: "outer case = generated subject package with 14 signatures (0-3 parameters, 0-3 results over ==-comparable and non-comparable types incl. pointers, slices, maps, interfaces) wrapped by deriveMem; inner case = a call sequence of 4-24 steps against one memoised function: fresh arguments, an identical earlier tuple, an Equal-but-not-identical rebuild, a hash-colliding tuple (Aa/BB swap); every step is one evaluation; judged: results are exactly f's for the class, f's call count never exceeds the number of distinct classes (class = canonical structural encoding, +-0 identified), zero-argument form runs f once; non-trivial = sequence containing an Equal-but-not-identical repeat; distinct by (signature, sequence)",
+		Assumptions: []string{"f is made deterministic per argument class by a result table keyed by the canonical encoding", "vref encoder (self-tested)"},
+	},
 }
